@@ -15,7 +15,7 @@ func init() {
 			"Exempt (entry, sink) pairs are listed one by one with the reason. Module-account protection of tokenfactory mint/burn/force-transfer is checked as ordinary guards.",
 		NotCovered:  []string{"'leaving all balances and records unchanged' on failure (SDK transaction atomicity is trusted)", "reachability of objects over histories", "wasm hooks"},
 		Assumptions: []string{"message signer = the field parsed by GetSigners (cross-checked structurally)", "call depth <= 7 frames inside osmosis packages"},
-		MinObl:      88,
+		MinObl:      94,
 		Run:         runC20,
 	})
 }
@@ -121,6 +121,15 @@ func runC20(c *rules.Ctx) {
 	c.FailsWhen(tf+"forceTransfer", "sdk.AccAddress.Equals({MODADDR},{FROM}) | sdk.AccAddress.Equals({FROM},{MODADDR})", "force-transfer out of a protected module account fails (checked for every protected module)", rules.GuardOpt{EveryIter: true})
 	c.FailsWhen(tf+"forceTransfer", "sdk.AccAddress.Equals({MODADDR},{TO}) | sdk.AccAddress.Equals({TO},{MODADDR})", "force-transfer into a protected module account fails (checked for every protected module)", rules.GuardOpt{EveryIter: true})
 	c.LoopOnlyFailExits(tf+"forceTransfer", "the scan over protected modules is left early only by failing")
+	c.Let("PERMLIST", "phi(make:slice(),append(#self,list(next(range(k.permAddrs))#1)))")
+	c.ForEach(tf+"forceTransfer", "tokenfactorytypes.AccountKeeper.GetModuleAccount", "{PERMLIST}", "the scan visits every protected module account (first to last — none is left unchecked)", false)
+	c.ForEach(tf+"forceTransfer", "append", "k.permAddrs", "…of the keeper's whole protected-module table", false)
+	// genesis import restores each denom's authority record as exported — a renounced admin stays renounced
+	const TG = "x/tokenfactory/keeper.Keeper.InitGenesis"
+	c.ForEach(TG, "tokenfactorykeeper.Keeper.setAuthorityMetadata", "genState.FactoryDenoms", "every imported denom gets its exported authority record written (also an empty admin)", false)
+	c.CallArg(TG, "tokenfactorykeeper.Keeper.setAuthorityMetadata", 2, "elem(genState.FactoryDenoms).Denom", "…under its own denom")
+	c.CallArg(TG, "tokenfactorykeeper.Keeper.setAuthorityMetadata", 3, "elem(genState.FactoryDenoms).AuthorityMetadata", "…with the exported metadata")
+	c.Order(TG, "tokenfactorykeeper.Keeper.createDenomAfterValidation", "tokenfactorykeeper.Keeper.setAuthorityMetadata", "the exported record is written after (and so overrides) the creator-as-admin default of denom creation")
 	c.CallArg(tf+"forceTransfer", "tokenfactorytypes.BankKeeper.SendCoins", 2, "{FROM}", "the checked source is the one debited")
 	c.CallArg(tf+"forceTransfer", "tokenfactorytypes.BankKeeper.SendCoins", 3, "{TO}", "the checked destination is the one credited")
 	// a denom cannot be created twice: existence is decided by the bank's denom metadata (which survives a renounced admin)
